@@ -34,7 +34,7 @@ CLAIMED["C03"] = dict(
     text="Protocol predicates first_ok/step_ok (Base/TimeStep.v) are evaluated by the extracted model on every timestep of every rollout of "
          "all 23 environments, including steps after LAST; for modelled environments the model's step is built from restart/transition/"
          "termination/truncation and satisfies them by proof. jumanji/types.py (StepType, first/mid/last, restart/transition/termination/truncation) is translated from the source on every run (Gen/TimeStepSrc.v) and proved to be the model's constructors (C03_Source.v).",
-    ref="DESIGN.md §5 C03", tech="source translation of types.py and of the step of ten environments + Coq-verified protocol checker on implementation traces + constructor lemmas", note=_ENV_NOTE)
+    ref="DESIGN.md §5 C03", tech="source translation of types.py and of the step of eleven environments + Coq-verified protocol checker on implementation traces + constructor lemmas", note=_ENV_NOTE)
 CLAIMED["C04"] = dict(
     text="Per environment (all 21 environments with a mask): theorem mask = legal for every state satisfying the reachable invariant and every action "
          "(invariant proved at reset and preserved by steps), model tied to the code by replaying every transition in the extracted model; verified "
@@ -55,7 +55,7 @@ CLAIMED["C08"] = dict(
 CLAIMED["C09"] = dict(
     text="The Impl model of each modelled environment predicts every transition (state, reward, step type) of the real environment on all "
          "catalogued configurations; theorems characterise the Impl model by the declarative rules. For Maze, SlidingTilePuzzle, Snake, GraphColoring, Sokoban, Cleaner and Knapsack the WHOLE step, and for TSP and CVRP the state part of the step with the observation (reward function as a parameter), (and mask / reward functions / reset where they are deterministic) is translated from the source on every run (Gen/MazeSrc.v, SlidingTileSrc.v, SnakeSrc.v, GraphColoringSrc.v, SokobanSrc.v, CleanerSrc.v, KnapsackSrc.v) and proved equal to the hand model, so their theorems hold of the code as written (C09_<Env>_Source.v).",
-    ref="DESIGN.md §5 C09", tech="source translation of ten environments + extracted-model correspondence (every transition) + refinement theorems", note=_ENV_NOTE)
+    ref="DESIGN.md §5 C09", tech="source translation of eleven environments + extracted-model correspondence (every transition) + refinement theorems", note=_ENV_NOTE)
 CLAIMED["C10"] = dict(
     text="Generators modelled over explicit draws; well-formedness proved for every draw; verified checkers on every reset state of the rollouts.",
     ref="DESIGN.md §5 C10", tech="Coq proof over all draws + verified checker on reset states", note=_ENV_NOTE)
